@@ -421,6 +421,34 @@ def rule_r7(prog, res):
                         forms[0][1], [nm for _, nm in forms[1:]]))
 
 
+# ------------------------------------------------------------------- R8
+def rule_r8(prog, res):
+    res.rule('R8', 'only the model layer and the interface read the '
+             'direct-children registry; protocols use get_subclasses()')
+    n = 0
+    allowed_mods = ('spyne.model.', 'spyne.interface.')
+    for f in prog.all_functions():
+        mn = f.module.name + '.'
+        for a in walk_no_defs(f.node):
+            if isinstance(a, ast.Attribute) and a.attr == '_subclasses':
+                n += 1
+                ok = mn.startswith(allowed_mods)
+                if not ok:
+                    where = '%s:%d' % (f.module.relpath, a.lineno)
+                    res.ob('R8', where, '%s reads %s' % (f.qualname,
+                                                         unparse(a)),
+                           'VIOLATED')
+                    res.finding('R8', '%s|direct-children|%s' % (
+                        f.qualname, unparse(a)), where,
+                        '%s reads the direct-children list %s: classes more '
+                        'than one level below the declared type are not '
+                        'found (get_subclasses() is the transitive list)' % (
+                            f.qualname, unparse(a)))
+    res.ob('R8', 'spyne/model/complex.py', '%d reads of _subclasses, all in '
+           'the model layer / interface' % n, 'ok')
+    res.floor('R8', 'reads of the direct-children registry', n, 4)
+
+
 def run(prog, res, tier):
     res.run_rule(rule_r1, prog, res)
     res.run_rule(rule_r2, prog, res)
@@ -429,6 +457,7 @@ def run(prog, res, tier):
     res.run_rule(rule_r5, prog, res)
     res.run_rule(rule_r6, prog, res)
     res.run_rule(rule_r7, prog, res)
+    res.run_rule(rule_r8, prog, res)
 
 
 _C = 'spyne/model/complex.py'
@@ -438,6 +467,11 @@ _I = 'spyne/interface/_base.py'
 _H = 'spyne/protocol/dictdoc/hier.py'
 
 MUTANTS = [
+    Mutant('wrapper-search-direct-children', 'R8', 'fire', _H,
+           in_func('HierDictDocument._doc_to_object',
+                   "subclasses = cls.get_subclasses()",
+                   "subclasses = cls.Attributes._subclasses"),
+           'direct-children'),
     Mutant('subclasses-only-for-originals', 'R6', 'fire', _I,
            in_func('Interface.add_class',
                    "if cls.Attributes._subclasses is not None:",
